@@ -11,10 +11,22 @@ mod c01;
 mod c02;
 mod p3forge;
 mod c05;
+mod c06;
+mod c07;
+mod c08;
 mod c09;
+mod codec_registry;
+mod c10;
+mod c11;
+mod c12;
+mod spy_vdaf;
+mod c13;
 mod c14;
+mod c16;
 mod c17;
 mod c18;
+mod c19;
+mod c20;
 
 use common::*;
 use std::time::Instant;
@@ -35,10 +47,20 @@ fn main() {
         "C01" => c01::run(&mut ctx),
         "C02" => c02::run(&mut ctx),
         "C05" => c05::run(&mut ctx),
+        "C06" => c06::run(&mut ctx),
+        "C07" => c07::run(&mut ctx),
+        "C08" => c08::run(&mut ctx),
         "C09" => c09::run(&mut ctx),
+        "C10" => c10::run(&mut ctx),
+        "C11" => c11::run(&mut ctx),
+        "C12" => c12::run(&mut ctx),
+        "C13" => c13::run(&mut ctx),
         "C14" => c14::run(&mut ctx),
+        "C16" => c16::run(&mut ctx),
         "C17" => c17::run(&mut ctx),
         "C18" => c18::run(&mut ctx),
+        "C19" => c19::run(&mut ctx),
+        "C20" => c20::run(&mut ctx),
         other => {
             eprintln!("unknown property {other}");
             std::process::exit(3)
